@@ -140,6 +140,24 @@ func wholeEvent(at string, count int, content []int) AEv {
 	return e
 }
 
+// stringAPIVariants: the same stream, and (if it holds text arrays given through the byte API)
+// the stream with those given through the string API.
+func stringAPIVariants(evs []AEv) [][]AEv {
+	out := [][]AEv{evs}
+	alt := append([]AEv{}, evs...)
+	changed := false
+	for i, e := range alt {
+		if e.M == "OnArray" && (e.AT == "string" || e.AT == "rid" || e.AT == "rref") {
+			alt[i].M = "OnStringlikeArray"
+			changed = true
+		}
+	}
+	if changed {
+		out = append(out, alt)
+	}
+	return out
+}
+
 func wrapDoc(body ...AEv) []AEv {
 	bd, ver, ed := newEv("OnBeginDocument"), newEv("OnVersion"), newEv("OnEndDocument")
 	out := []AEv{bd, ver}
@@ -168,7 +186,7 @@ func reencodeCTE(doc []byte, cfg *configuration.Configuration) (out []byte, err 
 }
 
 func checkC23(c *Check) {
-	c.Rule = "(1) CTEArray.tla/CTEBits.tla mirror the CTE encoder's array engine (leftover bytes, remaining chunk elements, endArray); TLC proves on the model that the elements written are the data's elements for every chunking (incl. empty chunks) and every cut into data events (incl. mid-element), and prints every complete schedule; each schedule is replayed into the real rules+encoder for every array kind of that width (typed arrays; strings/resource ids/remote refs/custom text with multi-byte characters so that cuts fall inside characters; media, custom binary) with boundary and random element values: text must equal the text of the array given as one event. (2) every corpus document (RulesGen.tla, AlphaDoc) is encoded with whole-array events and again with arrays re-chunked at random: same text. (3) decoding the encoder's text (CTE decoder with rules) into a second encoder reproduces it byte for byte. non-trivial = a schedule with >= 2 data events or a document with an array; distinct = (schedule, kind, content) or (document, seed)"
+	c.Rule = "(1) CTEArray.tla/CTEBits.tla mirror the CTE encoder's array engine (leftover bytes, remaining chunk elements, endArray); TLC proves on the model that the elements written are the data's elements for every chunking (incl. empty chunks) and every cut into data events (incl. mid-element), and prints every complete schedule; each schedule is replayed into the real rules+encoder for every array kind of that width (typed arrays; strings/resource ids/remote refs/custom text with multi-byte characters so that cuts fall inside characters; media, custom binary) with boundary and random element values: text must equal the text of the array given as one event - through the byte API and the string API, into a bytes.Buffer and into a sink that is only an io.Writer. (2) every corpus document (RulesGen.tla, AlphaDoc) is encoded with whole-array events and again with arrays re-chunked at random: same text. (3) decoding the encoder's text (CTE decoder with rules) into a second encoder reproduces it byte for byte. non-trivial = a schedule with >= 2 data events or a document with an array; distinct = (schedule, kind, content) or (document, seed)"
 	c.Assumptions = []string{"harness concretiser / event invoker (abs.go, docgen.go)", "TLC", "non-final chunks of bit arrays hold a multiple of 8 bits (format definition)"}
 	cfg := configuration.New()
 	s := newSampler(c.Seed + 23)
@@ -224,6 +242,23 @@ func checkC23(c *Check) {
 		if rej >= 0 {
 			c.Note("%s: reference stream not accepted at event %d (%v): %s", label, rej+1, perr, evsString(ref))
 			return false
+		}
+		// the whole array through the string API (text kinds) and into a sink that is only an io.Writer
+		for vi, variant := range stringAPIVariants(ref) {
+			for _, plain := range []bool{false, true} {
+				var other []byte
+				var rj int
+				if plain {
+					other, rj, _ = encodeCTEPlain(variant, cfg)
+				} else {
+					other, rj, _ = encodeCTE(variant, cfg)
+				}
+				if rj >= 0 || !bytes.Equal(other, want) {
+					wit["reference_events"], wit["events"], wit["reference_text"], wit["text"] = ref, variant, string(want), string(other)
+					c.Violation(fmt.Sprintf("%s: CTE text depends on the API or the sink: %q through the byte API into a buffer, %q for %s (variant %d, plain io.Writer %v)", label, want, other, evsString(variant), vi, plain), wit)
+					return false
+				}
+			}
 		}
 		got, rej2, perr2 := encodeCTE(alt, cfg)
 		wit["reference_events"], wit["events"], wit["reference_text"], wit["text"] = ref, alt, string(want), string(got)
@@ -351,6 +386,11 @@ func checkC23(c *Check) {
 			skipped++
 			mu.Unlock()
 			c.Note("stream not accepted by the real validator/encoder at event %d (%v): %s", rej+1, perr, evsString(evs))
+			return
+		}
+		if plain, rj, _ := encodeCTEPlain(evs, cfg); rj >= 0 || !bytes.Equal(plain, want) {
+			c.Violation(fmt.Sprintf("CTE text depends on the sink: %q into a bytes.Buffer, %q into a plain io.Writer; stream %s", want, plain, evsString(evs)),
+				map[string]interface{}{"kind": "cte-sink", "events": evs, "reference_text": string(want), "text": string(plain)})
 			return
 		}
 		hasArr := false
